@@ -94,12 +94,32 @@ func refNumberGrammar(b []byte) bool {
 	return st == sZero || st == sInt || st == sFrac || st == sExp
 }
 
+// expDigitsAtMost reports whether the text has at most k digits after its
+// first 'e'/'E' (sign not counted). The exponent value is the length of the
+// expanded digit string, so harnesses bound it (stated bound, not a property
+// of the code).
+func expDigitsAtMost(b []byte, k int) bool {
+	for i, c := range b {
+		if c == 'e' || c == 'E' {
+			n := 0
+			for _, d := range b[i+1:] {
+				if d >= '0' && d <= '9' {
+					n++
+				}
+			}
+			return n <= k
+		}
+	}
+	return true
+}
+
 // VerifC13_Grammar: NewNumber accepts exactly the JSON number grammar, for
 // every byte string up to N bytes.
 func VerifC13_Grammar() {
 	zzverif.Expect("accepted", "rejected")
 	n := zzverif.IntRange("len", 0, zzverif.Bound("N", 5, 7))
 	text := zzverif.Bytes("text", n)
+	zzverif.Assume(expDigitsAtMost(text, 3))
 	want := refNumberGrammar(text)
 	zzverif.Known("C13-zero-mantissa-exponent", zeroMantissaWithExponent(text))
 	num, err := NewNumber(bytes.NewBytes(text))
@@ -194,6 +214,7 @@ func VerifC13_Denotation() {
 	zzverif.Expect("accepted", "with-exponent", "with-fraction")
 	n := zzverif.IntRange("len", 1, zzverif.Bound("N", 5, 7))
 	text := zzverif.Bytes("text", n)
+	zzverif.Assume(expDigitsAtMost(text, 3))
 	num, err := NewNumber(bytes.NewBytes(text))
 	if err != nil {
 		return
